@@ -4,8 +4,6 @@ NOT_BUILT = "check not built yet in this round (design in DESIGN.md section 3); 
 
 
 def fill(claim, na):
-    for p in ["C10"]:
-        na(p, NOT_BUILT)
     na("C05", "equality of decoded flux with the sector dump is a statement about decoding arbitrary bit-streams "
               "(gap lengths, sync search, bit order, opcode placement); no clause is visible in the shape of the code "
               "beyond the CRC/addressing clauses decided under C06")
@@ -156,3 +154,12 @@ def fill(claim, na):
           "FileView::read_block and geometry probing are not decided.",
           "Trusts doc/mmb.5 as the layout specification.",
           "DESIGN.md 3/C04")
+    claim("C10",
+          "must-facts on the hint logic (extension tests only on a name with .gz stripped); folding of the zlib "
+          "error switch and window-bits constant; CFG exit analysis of the inflate loop; zlib entry-point census; "
+          "member-continuation rule; opener selection rule",
+          "Decides structural clauses for every image and .gz stream: compressed and uncompressed names get the same "
+          "identification hints, only gzip framing is accepted, every zlib error raises, the loop ends only at the "
+          "end of the last member, integrity checks are not disabled. Equality of outputs is not executed.",
+          "Trusts zlib's documented semantics.",
+          "DESIGN.md 3/C10")
